@@ -142,6 +142,23 @@ def exec_case(ctx, r):
             "cls": cost_spec["cls"], "kw": dict(cost_spec["kw"], param=None)}
         return build(spec).fit(data)
 
+    def fit_adapter(spec_a, data):
+        """Fit the adapter; in a third of the cases the SAME data object held other values during an
+        earlier fit + evaluate and was then overwritten in place (the scores must follow the last fit)."""
+        a = build(spec_a)
+        if r["sub_seed"] % 3 == 0 and not r.get("long"):
+            obj = (data[::-1] * 1.7 + 0.4).copy()
+            a.fit(obj)
+            k_ = a.expected_cut_entries
+            try:
+                a.evaluate(np.array([np.linspace(0, len(obj), k_).astype(int)], dtype=np.int64))
+            except Exception:  # noqa (too short for this adapter: the earlier use is not what is judged)
+                pass
+            obj[...] = data
+            ctx.stat("adapters_refitted_on_edited_object")
+            return a.fit(obj)
+        return a.fit(data)
+
     try:
         if adapter == "direct":
             _direct(ctx, r, X, tol, rng, label)
@@ -152,7 +169,7 @@ def exec_case(ctx, r):
             cuts = _cuts(rng, n, 3, ms)
             if len(cuts) == 0:
                 return
-            sc = build(S("ChangeScore", cost=cost_spec)).fit(X)
+            sc = fit_adapter(S("ChangeScore", cost=cost_spec), X)
             got = sc.evaluate(cuts)
             c = fresh_cost()
             full, left, right = (c.evaluate(cuts[:, [0, 2]]), c.evaluate(cuts[:, [0, 1]]),
@@ -171,7 +188,7 @@ def exec_case(ctx, r):
             cuts = _cuts(rng, n, 2, ms)
             if len(cuts) == 0:
                 return
-            sc = build(S("Saving", baseline_cost=cost_spec)).fit(X)
+            sc = fit_adapter(S("Saving", baseline_cost=cost_spec), X)
             got = sc.evaluate(cuts)
             base = fresh_cost().evaluate(cuts)
             opt = fresh_cost(param=None).evaluate(cuts)
@@ -189,7 +206,7 @@ def exec_case(ctx, r):
             cuts = _cuts(rng, n, 4, ms, local=True, exhaustive_n=10, sample=120)
             if len(cuts) == 0:
                 return
-            sc = build(S("LocalAnomalyScore", cost=cost_spec)).fit(X)
+            sc = fit_adapter(S("LocalAnomalyScore", cost=cost_spec), X)
             got = sc.evaluate(cuts)
             c = fresh_cost()
             outer, inner = c.evaluate(cuts[:, [0, 3]]), c.evaluate(cuts[:, [1, 2]])
